@@ -17,7 +17,8 @@ RULE = ("block 'routing': object of class {DimArray, Dataset, Axis} x name kind 
         "sentinel metadata (incl. mutable values). class = (block, class, name kind, value type) or (operation, ndim); trivial = none. "
         "Guest shards re-run the C01-C18 workloads with the M-META monitor deciding.")
 ANCHORS = ["bases.__getattr__", "bases.__setattr__", "bases.__delattr__", "bases.attrs"]
-ANCHORS_OPTIONAL = ["bases.attrs"]
+# entry points the workload calls itself; the other anchors are helpers behind them (counted as evidence only)
+ANCHORS_REQUIRED = ["bases.__getattr__", "bases.__setattr__", "bases.__delattr__"]
 FLOORS = {"quick": {"evaluations": 2000, "distinct": 300, "outcome:routing-steps": 4000, "outcome:propagation-ops": 2000, "event:meta_checks": 5000},
           "thorough": {"evaluations": 30000, "distinct": 500}}
 GUESTS = [("c01", 0.1), ("c02", 0.05), ("c07", 0.1), ("c08", 0.1), ("c09", 0.1), ("c10", 0.1), ("c11", 0.1), ("c12", 0.1), ("c04", 0.1),
